@@ -62,10 +62,10 @@ ASSUMPTIONS = [
 ]
 
 TIERS = {
-    "quick": dict(mc_depth=9, cov_depth=4, sim_inv=150, sim_inv_depth=30, dump_depth=4,
+    "quick": dict(mc_depth=9, cov_depth=4, sim_inv=150, sim_inv_depth=30, dump_depth=4, dump_sizes_depth=3,
                   max_walk=120, step_budget=8000, sim_walks=60, sim_depth=18, hist=70, hist_len=24,
                   tlc_timeout=900),
-    "thorough": dict(mc_depth=12, cov_depth=5, sim_inv=8000, sim_inv_depth=40, dump_depth=5,
+    "thorough": dict(mc_depth=12, cov_depth=5, sim_inv=8000, sim_inv_depth=40, dump_depth=5, dump_sizes_depth=4,
                      max_walk=200, step_budget=60000, sim_walks=1200, sim_depth=30, hist=2000,
                      hist_len=40, tlc_timeout=2400),
 }
@@ -119,8 +119,8 @@ def model_check(rep: Report, T: dict) -> None:
                       {"kind": "design"})
 
 
-def dump_edges(rep: Report, T: dict) -> graph.Graph:
-    res = tlc.run("ImageIter", _cfg("Dump_ImageIter.cfg", MaxDepth=T["dump_depth"]), workers=1,
+def dump_edges(rep: Report, T: dict, cfg: str = "Dump_ImageIter.cfg", depth_key: str = "dump_depth") -> graph.Graph:
+    res = tlc.run("ImageIter", _cfg(cfg, MaxDepth=T[depth_key]), workers=1,
                   timeout=T["tlc_timeout"])
     if res.violated:
         raise tlc.MachineryError(f"edge dump run failed: {res.violated}\n{res.error_text[:800]}")
@@ -608,31 +608,26 @@ def run_replay(rep: Report, replay: dict, server, stats: Counter) -> None:
     rep.sample({"replayed": [e["a"]["op"] for e in trace["events"]], "verdict": verdicts[0]})
 
 
-def run_all(rep: Report, T: dict, server, stats: Counter) -> None:
-    rng = random.Random(rep.seed * 7919 + 11)
+def replay_edges(rep: Report, T: dict, server, stats: Counter, rng: random.Random, ok_traces: list,
+                 cfg: str, depth_key: str, name: str, budget: int) -> bool:
+    """Execute every edge of one dump instance on real code; returns True when all were covered."""
     styles = ["block", "kitty", "iterm2"]
-    all_ok_traces: list[dict] = []
-
-    # ---- spec -> code: every edge of the dump instance
     t0 = time.time()
-    g = dump_edges(rep, T)
+    g = dump_edges(rep, T, cfg, depth_key)
     cover = Cover(g)
     W.refreeze()
-    rep.extra["dump"] = dict(edges=len(g.edges), nodes=g.nodes, inits=len(g.inits))
-    steps = 0
-    rounds = 0
-    failures = 0
-    while cover.remaining() and rounds < 5 and steps < T["step_budget"]:
+    steps = rounds = failures = 0
+    while cover.remaining() and rounds < 5 and steps < budget:
         rounds += 1
         cover.claimed = set()
         batch: list[tuple[dict, list[int], int]] = []
-        while steps < T["step_budget"]:
+        while steps < budget:
             path = cover.plan(T["max_walk"])
             if not path:
                 break
             walk = [cover.edges[i] for i in path]
-            cfg = W.make_config(rng, styles[len(batch) % 3])
-            trace, done, unfired = exec_walk((cfg, server, rng), walk, stop_on_unfired=True)
+            wcfg = W.make_config(rng, styles[len(batch) % 3])
+            trace, done, unfired = exec_walk((wcfg, server, rng), walk, stop_on_unfired=True)
             steps += len(trace["events"])
             for j in unfired:
                 cover.tries[path[j]] += 1
@@ -642,7 +637,7 @@ def run_all(rep: Report, T: dict, server, stats: Counter) -> None:
         if not batch:
             break
         traces = [b[0] for b in batch]
-        verdicts = validate(rep, traces, f"c11-edges{rounds}", stats)
+        verdicts = validate(rep, traces, f"c11-{name}{rounds}", stats)
         for (trace, path, done), v in zip(batch, verdicts):
             account(stats, rep, trace)
             off = trace.get("offset", 0)  # 1: the failed initial construction is event 1
@@ -651,24 +646,39 @@ def run_all(rep: Report, T: dict, server, stats: Counter) -> None:
             if v["verdict"] != "ok" and 0 <= v["at"] - 1 - off < len(path):
                 cover.bad.add(path[v["at"] - 1 - off])
             elif v["verdict"] == "ok":
-                all_ok_traces.append(trace)
-        failures += report_failures(rep, traces, verdicts, "edge replay")
+                ok_traces.append(trace)
+        failures += report_failures(rep, traces, verdicts, f"edge replay ({name})")
         for tr_ in traces[:2]:
-            rep.sample({"origin": "edge replay", "cfg": tr_["cfg"]["style"] + "/" + tr_["cfg"]["anim_fx"],
+            rep.sample({"origin": f"edge replay ({name})", "cfg": tr_["cfg"]["style"] + "/" + tr_["cfg"]["anim_fx"],
                         "ops": [e["a"]["op"] for e in tr_["events"]][:20]})
-    rep.extra["edge_replay"] = dict(
+    rep.extra[f"edge_replay_{name}"] = dict(
+        edges=len(g.edges), nodes=g.nodes, inits=len(g.inits),
         covered=len(cover.covered), diverged=len(cover.bad), fault_never_fired=len(cover.gaveup),
         not_reached=cover.remaining(), rounds=rounds, steps=steps, wall_s=round(time.time() - t0, 1))
-    if cover.remaining() and not failures:
+    if cover.remaining() and not failures and not rep.violations:
         frac = cover.remaining() / len(cover.edges)
-        if steps < T["step_budget"] or frac > 0.5:
+        if steps < budget or frac > 0.5:
             raise tlc.MachineryError(
-                f"edge replay left {cover.remaining()} of {len(cover.edges)} edges uncovered without "
-                f"any divergence (steps={steps})")
-        rep.notes.append(f"edge replay stopped at the step budget with {cover.remaining()} edges uncovered")
+                f"edge replay ({name}) left {cover.remaining()} of {len(cover.edges)} edges uncovered "
+                f"without any divergence (steps={steps})")
+        rep.notes.append(f"edge replay ({name}) stopped at the step budget with {cover.remaining()} edges uncovered")
     if len(cover.gaveup) > 0.05 * len(cover.edges) and not rep.violations:
-        raise tlc.MachineryError(f"{len(cover.gaveup)} fault edges never fired")
-    rep.exhaustive = cover.remaining() == 0 and not cover.gaveup and not cover.bad
+        raise tlc.MachineryError(f"{len(cover.gaveup)} fault edges never fired ({name})")
+    return cover.remaining() == 0 and not cover.gaveup and not cover.bad
+
+
+def run_all(rep: Report, T: dict, server, stats: Counter) -> None:
+    rng = random.Random(rep.seed * 7919 + 11)
+    styles = ["block", "kitty", "iterm2"]
+    all_ok_traces: list[dict] = []
+
+    # ---- spec -> code: every edge of the two dump instances (operations x failures on a
+    #      dynamic size; sizes incl. "the user resizes while draw() runs", without failures)
+    full = replay_edges(rep, T, server, stats, rng, all_ok_traces, "Dump_ImageIter.cfg", "dump_depth",
+                        "main", T["step_budget"])
+    sizes = replay_edges(rep, T, server, stats, rng, all_ok_traces, "DumpSizes_ImageIter.cfg",
+                         "dump_sizes_depth", "sizes", T["step_budget"] // 2)
+    rep.exhaustive = full and sizes
 
     # ---- spec -> code: deep simulated behaviours of the full instance
     t0 = time.time()
